@@ -9,6 +9,7 @@ PROP = "C15"
 PROGS = {
     # name: (main.asm text, needs -I lib?)
     "ok": ('@org $c000\n@meta "ID" "HRAM"\nhv:\n@endmeta\n@meta "ID" "RAM"\nrv:\n@endmeta\nstart:\n@db 1, 2, 3\n@dw start, later\nlater:\n@db "end"\n', False),
+    "ok_prg": ('@org $8000\n@meta "ID" "PRG", "BANK" "1"\np1:\n@db 1\n@meta "ID" "PRG", "BANK" "2"\np2:\n@db 2\n@endmeta\n', False),
     "ok_inc": ('@db $11\n@include "lib.inc"\n@db $22\n', True),
     # an image with a line break early and more than a kilobyte after it (what a line-buffered writer would cut)
     "ok_big": ('@db 1, 10, 2\n@ds 1500, $41\n@db 10\n@ds 1100, $42\n@db 3\n', False),
@@ -103,7 +104,7 @@ def run(ck):
             key = (c[0], c[1], c[2] and c[2][1], c[3] and c[3][1], c[4] and c[4][1], c[5] and c[5][1])
             cls = (c[1], bool(c[2]), c[2] and "nodir" in c[2][1], c[3] and c[3][1], c[4] and c[4][1], c[5] and c[5][1])
             clean = not any(x and ("nodir" in x[1] or "nosuch" in x[1]) for x in (c[2], c[3], c[4], c[5]))
-            if cls not in seen or rng.random() < 0.12 or (clean and c[1] in ("ok", "ok_inc", "ok_big", "ok_echo") and rng.random() < 0.7):
+            if cls not in seen or rng.random() < 0.12 or (clean and c[1] in ("ok", "ok_prg", "ok_inc", "ok_big", "ok_echo") and rng.random() < 0.7):
                 seen.add(cls); keep.append(c)
         grid = keep
     runs = []
@@ -188,7 +189,7 @@ def run(ck):
     preds = run_cases(model, mlines)
 
     KNOWN_BYTES = {"ok_big": bytes([1, 10, 2]) + b"A" * 1500 + b"\n" + b"B" * 1100 + bytes([3]),
-                   "ok_inc": bytes([0x11, 0x99, 0x22]), "unsolved_symbol": bytes([7, 8]), "ok_echo": bytes([1, 2])}
+                   "ok_inc": bytes([0x11, 0x99, 0x22]), "unsolved_symbol": bytes([7, 8]), "ok_echo": bytes([1, 2]), "ok_prg": bytes([1, 2])}
     nviol = 0
     ref_stdout = {}
     for run, r, pred in zip(runs, results, preds):
@@ -201,10 +202,10 @@ def run(ck):
         withlib = bool(inc and inc[1] == "lib")
         nopts = sum(1 for x in (out, dbg, exp, inc) if x)
         # expectation by construction
-        img_ok = prog in ("ok", "ok_inc", "ok_big", "ok_echo", "unsolved_symbol") and (not PROGS[prog][1] or withlib)
+        img_ok = prog in ("ok", "ok_prg", "ok_inc", "ok_big", "ok_echo", "unsolved_symbol") and (not PROGS[prog][1] or withlib)
         all_ok = img_ok and not (out and "nodir" in out[1]) and not (inc and inc[1] == "nosuchdir") \
             and not (dbg and ("nodir" in dbg[1] or prog == "unsolved_symbol")) \
-            and not (exp and (prog == "unsolved_symbol" or ("nodir" in exp[1] and (arch == "sm83" or prog == "ok"))))
+            and not (exp and (prog == "unsolved_symbol" or ("nodir" in exp[1] and (arch == "sm83" or prog in ("ok", "ok_prg")))))
         if rc != 0 or nopts >= 2:
             ck.nontriv(" ".join(argv) + prog)
         ck.count("%s:%s" % (prog, "rc=%s" % rc))
